@@ -5,7 +5,7 @@
     model and the result of the rectgeo model. *)
 From Coq Require Import Ascii String List Bool Arith ZArith NArith QArith Qcanon.
 From PTBase Require Import Exn PyStr PyNum PyVal Wire.
-From P Require Import Rectgeo Names.
+From P Require Import Rectgeo Names Main Heading.
 Import ListNotations.
 Open Scope char_scope.
 
@@ -50,9 +50,8 @@ Definition show_conn (k : conn str) : str :=
    show_q (kdb k) ++ colon ++ show_q (karea k))%list.
 Definition show_pos (p : posres) : str :=
   match p with
-  | PosXY x y => (show_q x ++ colon ++ show_q y)%list
+  | PosAx x y ax ay => (show_q x ++ colon ++ show_q y ++ colon ++ show_q ax ++ colon ++ show_q ay)%list
   | PosNaN => s2l "NAN"
-  | PosRotated => s2l "ROTATED"
   end.
 Definition show_result (r : res (result str)) : str :=
   match r with
@@ -66,20 +65,21 @@ Definition show_result (r : res (result str)) : str :=
 
 Definition run_case (line : str) : str :=
   match split_fast tab line with
-  | [fl; at_; av_; ac_; ox; oy; oz; dx; dy; dz; sf; cv; ls; cs; rav; rsnap; rat; rcv; rls; rcs; cn] =>
+  | [fl; at_; av_; ac_; ox; oy; oz; ax; ay; dx; dy; dz; sf; cv; ls; cs; rav; rsnap; rat; rcv; rls; rcs; cn; obk] =>
       let dxs := map parse_q (items ";" dx) in
       let dys := map parse_q (items ";" dy) in
       let dzs := map parse_q (items ";" dz) in
       let n := length dxs in
       let sfl := map parse_q (items ";" sf) in
-      let g := mkRgeo (parse_q ox) (parse_q oy) (parse_q oz) dxs dys dzs (nat_of_str at_) (parse_q av_) (parse_q ac_)
+      let g := mkRgeo (parse_q ox) (parse_q oy) (parse_q oz) (parse_q ax) (parse_q ay) dxs dys dzs (nat_of_str at_) (parse_q av_) (parse_q ac_) (parse_q oz)
                       (list_surf n sfl (parse_q oz)) in
       let nm := str_naming (nat_of_str cv) (map unhex (items ";" ls)) (map unhex (items ";" cs)) n in
       let nm' := str_naming (nat_of_str rcv) (map unhex (items ";" rls)) (map unhex (items ";" rcs)) n in
       let tbl := map parse_cn (items ";" cn) in
       let gr := mkGrid (rect_blocks nm g) (rect_conns nm g) (cn_fun tbl) in
       (join_with ";" (map show_block (blocks gr)) ++ tab :: join_with ";" (map show_conn (conns gr)) ++ tab ::
-       show_result (rectgeo str str_eqb (str_eqb (slice 0 1 fl) (s2l "1")) (str_eqb (slice 1 2 fl) (s2l "1")) gr (parse_q rav) (parse_q rsnap) (nat_of_str rat) nm'))%list
+       show_result (rectgeo str str_eqb heading_exact (str_eqb (slice 0 1 fl) (s2l "1")) (str_eqb (slice 1 2 fl) (s2l "1")) gr
+                            (match obk with "-" :: _ => None | _ => Some (unhex obk) end) (parse_q rav) (str_eqb (slice 2 3 fl) (s2l "1")) (parse_q rsnap) (nat_of_str rat) nm'))%list
   | _ => s2l "BADCASE"
   end.
 
